@@ -232,8 +232,13 @@ class Network(Module):
                 ignore_index=True,
             )
 
-        # Convert comp_edges to the index format required for `jax.sparse` solvers.
-        n_nodes, data_inds, indices, indptr = comp_edges_to_indices(self._comp_edges)
+        # Convert comp_edges to the index format required for `jax.sparse` solvers. The
+        # number of nodes is passed explicitly because cells without any edge (single
+        # compartment cells) can not be inferred from `comp_edges`.
+        n_nodes = int(start_branchpoints + self._cumsum_nbranchpoints_per_cell[-1])
+        n_nodes, data_inds, indices, indptr = comp_edges_to_indices(
+            self._comp_edges, n_nodes=n_nodes
+        )
         self._n_nodes = n_nodes
         self._data_inds = data_inds
         self._indices_jax_spsolve = indices
